@@ -1411,6 +1411,12 @@ func (env *SpecEnv) evalCall(x *ast.CallExpr) Val {
 		rng := And(Le(sv.L[1], bv), Lt(bv, Add(sv.L[1], sv.L[2])))
 		body := Ne(Select(Select(h, sv.L[0]), bv), I(0))
 		return boolVal(Term{fmt.Sprintf("(forall ((%s Int)) %s)", bv.S, Implies(rng, body).S), SBool})
+	case "sliceArr":
+		v := arg(0)
+		if len(v.L) != 4 {
+			specFail("sliceArr needs a slice")
+		}
+		return intVal(v.L[0])
 	case "typetag":
 		return intVal(arg(0).L[0])
 	case "as":
